@@ -20,13 +20,17 @@ from multiprocessing.connection import wait as _mp_wait
 from pathlib import Path
 
 VERIF_DIR = Path(__file__).resolve().parent.parent
-EVIDENCE_DIR = VERIF_DIR / "evidence"
-REPLAY_DIR = VERIF_DIR / "replays"
+# (the two overrides exist so that mutant self-tests do not overwrite the evidence of the real tree)
+EVIDENCE_DIR = Path(os.environ.get("VERIF_EVIDENCE_DIR") or VERIF_DIR / "evidence")
+REPLAY_DIR = Path(os.environ.get("VERIF_REPLAY_DIR") or VERIF_DIR / "replays")
 KNOWN_FINDINGS = VERIF_DIR / "known_findings.json"
 
 DEFAULT_SEED = 20260926
 PINNED_ENV = {
     "OPENBLAS_NUM_THREADS": "1",
+    # the BLAS kernel auto-selected in this sandbox ("Prescott") gives ddot results that depend on the memory
+    # alignment of its operands, i.e. on what the process allocated before; the Nehalem kernels do not
+    "OPENBLAS_CORETYPE": "Nehalem",
     "OMP_NUM_THREADS": "1",
     "MKL_NUM_THREADS": "1",
     "NUMEXPR_NUM_THREADS": "1",
@@ -308,7 +312,7 @@ def match_known(prop: str, viol: dict, findings=None):
 
 # ----------------------------------------------------------------------------- replay files
 def write_replay(prop: str, plan: dict, viol: dict, run_digest: str = "") -> Path:
-    REPLAY_DIR.mkdir(exist_ok=True)
+    REPLAY_DIR.mkdir(exist_ok=True, parents=True)
     body = {"property": prop, "engine": plan.get("engine"), "violation": viol, "run_digest": run_digest, "plan": plan}
     name = f"{prop}-{short(digest(body), 16)}.json"
     p = REPLAY_DIR / name
@@ -319,7 +323,7 @@ def write_replay(prop: str, plan: dict, viol: dict, run_digest: str = "") -> Pat
 # ----------------------------------------------------------------------------- evidence
 def write_evidence(prop: str, tier: str, seed: int, level: str, coverage: dict, wall_s: float, violations: int,
                    assumptions: list):
-    EVIDENCE_DIR.mkdir(exist_ok=True)
+    EVIDENCE_DIR.mkdir(exist_ok=True, parents=True)
     ev = {
         "property_id": prop,
         "tier": tier,
